@@ -32,7 +32,8 @@ ALIASES = {"improper-logging.print-statement": ["print-statements", "print-state
 
 PKG_OF_PREFIX = {"magic-numbers": "magic_numbers", "improper-logging": "print_statements", "nesting": "nesting", "srp": "srp",
                  "performance": "performance", "method-property": "method_property", "lbyl": "lbyl", "cqs": "cqs",
-                 "unwrap-abuse": "unwrap_abuse", "clone-abuse": "clone_abuse", "blocking-async": "blocking_async"}
+                 "unwrap-abuse": "unwrap_abuse", "clone-abuse": "clone_abuse", "blocking-async": "blocking_async",
+                 "collection-pipeline": "collection_pipeline", "stateless-class": "stateless_class"}
 NO_INLINE = {"lbyl", "cqs", "unwrap_abuse", "clone_abuse", "blocking_async"}
 OWN_LINE = {"method_property"}
 
@@ -364,6 +365,8 @@ PY_BLOCKS = [
     ["def fetch_and_log{n}(db, key):", "    value = db.get(key)", "    db.touch(key)", "    return value"],
     ["class Many{n}:", "    def __init__(self):", "        self.v = 1", ""] + [f"    def m{k}(self):\n        return self.v + {k}" for k in range(1, 10)],
     ["def scale{n}(x):", "    y = x * 86400", "    return y"],
+    ["def keep{n}(items):", "    out = []", "    for it in items:", "        if not it.ok:", "            continue", "        out.append(it.value)", "    return out"],
+    ["class Util{n}:", "    def helper(self, a):", "        return a * 2", "", "    def other(self, b):", "        return b + 1"],
 ]
 TS_BLOCKS = [
     ["class Holder{n} {", "  private x: number = 0;"] + [f"  a{k}() {{ return this.x; }}" for k in range(1, 10)] + ["}"],
@@ -425,7 +428,7 @@ def obs_plan(r, lang, base, v0):
     """choose directives to insert; returns alines with back-pointers: list of (aline, orig base index or None)"""
     _, _, st, _ = LANGS[lang]
     a = [(["Plain", l], i) for i, l in enumerate(base)]
-    rare = [v for v in v0 if PKG_OF_PREFIX[prefix_of(v[0])] in ("cqs", "lbyl", "clone_abuse", "srp", "performance")]
+    rare = [v for v in v0 if PKG_OF_PREFIX[prefix_of(v[0])] in ("cqs", "lbyl", "clone_abuse", "srp", "performance", "collection_pipeline", "stateless_class")]
     target = r.choice(rare) if rare and r.random() < 0.3 else r.choice(v0)   # keep the linters with few violations per file covered
     trule, tline = target[0], target[1]
     others = [x for x in RULES if prefix_of(x) != prefix_of(trule)]
@@ -590,13 +593,14 @@ def run_obs(case):
 # ------------------------------------------------------------------ file-pattern level (validated only: fnmatch is an oracle)
 CONFIG_KEY = {"magic_numbers": "magic-numbers", "print_statements": "print-statements", "nesting": "nesting", "srp": "srp",
               "performance": "performance", "method_property": "method-property", "lbyl": "lbyl", "unwrap_abuse": "unwrap-abuse",
-              "clone_abuse": "clone-abuse", "blocking_async": "blocking-async"}
+              "clone_abuse": "clone-abuse", "blocking_async": "blocking-async", "collection_pipeline": "collection-pipeline",
+              "stateless_class": "stateless-class"}
 # how the linter-level `ignore:` list is treated by the current tree where it deviates from "glob pattern matching the file"
-PATTERN_MODE = {"nesting": "never", "performance": "never", "lbyl": "never",
+PATTERN_MODE = {"nesting": "never", "performance": "never", "lbyl": "never", "stateless_class": "never",
                 "srp": "substring", "unwrap_abuse": "substring", "clone_abuse": "substring", "blocking_async": "substring"}
 CLI_CMD = {"nesting": "nesting", "magic_numbers": "magic-numbers", "srp": "srp", "print_statements": "improper-logging", "performance": "perf",
            "method_property": "method-property", "lbyl": "lbyl", "unwrap_abuse": "unwrap-abuse", "clone_abuse": "clone-abuse",
-           "blocking_async": "blocking-async"}
+           "blocking_async": "blocking-async", "collection_pipeline": "pipeline", "stateless_class": "stateless-class"}
 
 
 def _lint_in(root: Path, f: Path, cfg: dict):
@@ -717,6 +721,99 @@ def run_cli_pair(case):
     return {"cmd": cmd, "pkg": pkg, "before": res[0], "after": res[1]}
 
 
+# ------------------------------------------------------------------ linter-level patterns against the matcher model (Model/IgnorePat.v)
+PAT_HEADER = ("From TL Require Import Lib.Base Gen.IgnoreGen Model.CollectStr Model.Glob Model.Collect Model.CollectSpec Model.IgnorePat "
+              "Actual.IgnorePatActual.\n")
+PLACEMENTS = [["case{e}"], ["src", "case{e}"], ["src", "showcase{e}"], ["legacy", "case{e}"], ["legacy", "deep", "case{e}"], ["src", "gen", "case{e}"],
+              ["src", "codegen", "case{e}"], ["src", "regen_case{e}"], ["lib", "vendorlib", "table_constants{e}"], ["src", "gen2", "x_constants{e}"]]
+
+
+def doc_patterns(r, ext):
+    """patterns in the documented forms of Model/CollectSpec.v (pat): (Coq term, rendered text)"""
+    lst = lambda xs: coq.coq_list([cstr(x) for x in xs])
+    out = [(f"(PSuffix {cstr(ext)})", "*" + ext), (f'(PSuffix {cstr("_constants" + ext)})', "*_constants" + ext), (f'(PSuffix {cstr("case" + ext)})', "*case" + ext),
+           (f'(PAnySuffix {cstr("_constants" + ext)})', "**/*_constants" + ext), (f"(PAnySuffix {cstr(ext)})", "**/*" + ext)]
+    for d in (["legacy"], ["src"], ["src", "gen"], ["gen"]):
+        out.append((f"(PUnder {lst(d)})", "/".join(d) + "/**"))
+    for n in ("gen", "legacy", "src", "vendorlib", "vendor"):
+        out.append((f"(PDir {cstr(n)})", n + "/"))
+        out.append((f"(PAnyDir {cstr(n)})", "**/" + n + "/"))
+    for d in (["src", "gen"], ["legacy", "deep"]):
+        out.append((f"(PDirPath {lst(d)})", "/".join(d) + "/"))
+    for f in (["case" + ext], ["src", "case" + ext], ["legacy", "deep", "case" + ext], ["src", "gen"]):
+        out.append((f"(PExact {lst(f)})", "/".join(f)))
+    for raw in ("src/ca?e" + ext, "s[rq]c/*" + ext, "legacy/*/case" + ext, "*/gen/*", "src/*case" + ext, "case.??"):
+        out.append((f"(PRaw {cstr(raw)})", raw))
+    r.shuffle(out)
+    return out
+
+
+def run_pattern_model(case):
+    """every linter's `ignore:` list set to one documented-form pattern, for files placed at several project-relative paths"""
+    lang, base = case["lang"], case["base"]
+    ext = LANGS[lang][1]
+    text = "".join(l + "\n" for l in base)
+    r = rng_for(case["seed"], PROP, "patmodel", case["i"])
+    pats = doc_patterns(r, ext)[: case.get("npat", 14)]
+    rows = []
+    for pl in PLACEMENTS:
+        comps = [c.replace("{e}", ext) for c in pl]
+        with scratch_dir("tv-c04-pm-") as root:
+            f = root.joinpath(*comps)
+            f.parent.mkdir(parents=True, exist_ok=True)
+            f.write_text(text, encoding="utf-8")
+            v0 = _lint_in(root, f, {})
+            pkgs = sorted({PKG_OF_PREFIX[prefix_of(v[0])] for v in v0} & set(CONFIG_KEY))
+            for term, patt in pats:
+                got = _lint_in(root, f, {CONFIG_KEY[k]: {"ignore": [patt]} for k in pkgs})
+                for k in pkgs:
+                    mine0 = [v for v in v0 if PKG_OF_PREFIX[prefix_of(v[0])] == k]
+                    mine1 = [v for v in got if PKG_OF_PREFIX[prefix_of(v[0])] == k]
+                    rows.append({"pkg": k, "abs": str(f), "comps": comps, "term": term, "pattern": patt, "before": mine0, "after": mine1,
+                                 "partial": mine1 not in ([], mine0), "impl": mine1 == []})
+    return {"rows": rows, "failures": drain_failures(), "text": text, "lang": lang}
+
+
+def judge_pattern_model(chk, results, workdir: Path, record=True):
+    rows = [dict(r, text=res["text"], lang=res["lang"]) for res in results for r in res["rows"]]
+    for res in results:
+        if res["failures"]:
+            chk.violation({"reason": "a rule failed internally (swallowed exception) during a pattern run", "failures": res["failures"][:3]})
+    if not rows:
+        return
+    shards = []
+    per = max(1, (len(rows) + 7) // 8)
+    for s0 in range(0, len(rows), per):
+        shards.append("\n".join(
+            f"Eval vm_compute in (judge_pat (matcher_of {cstr(r['pkg'])}) {cstr(r['abs'])} {coq.coq_list([cstr(c) for c in r['comps']])} {r['term']} {coq.coq_bool(r['impl'])})."
+            for r in rows[s0:s0 + per]))
+    try:
+        outs = [o for out in eval_shards_at(_TH, workdir, PAT_HEADER, shards) for o in out]
+    except RuntimeError as e:
+        chk.broken.append(f"Model:evaluation of the pattern-matcher model failed ({str(e)[:300]})")
+        return
+    kinds = {"nesting": "never", "performance": "never", "lbyl": "never", "srp": "substring", "unwrap_abuse": "substring", "clone_abuse": "substring",
+             "blocking_async": "substring", "magic_numbers": "pathmatch", "print_statements": "pathmatch", "method_property": "pathmatch",
+             "collection_pipeline": "pathmatch", "stateless_class": "never"}
+    for r, bits in zip(rows, outs):
+        if record:
+            chk.count([r["text"], r["pkg"], r["comps"], r["pattern"]], True)
+            chk.dist(f"patmodel:{r['pkg']}:{r['term'].split()[0].strip('(')}")
+            chk.traces_validated += 1
+        spec_ok, model_ok, dom = bool(bits[0]), bool(bits[1]), bool(bits[2])
+        info = {"reason": "a linter-level ignore pattern did not remove exactly the violations it covers", "level": "pattern-model", "linter": r["pkg"],
+                "pattern": r["pattern"], "path": "/".join(r["comps"]), "config": {CONFIG_KEY[r["pkg"]]: {"ignore": [r["pattern"]]}},
+                "before": r["before"], "after": r["after"], "content": r["text"], "file": "case" + LANGS[r["lang"]][1]}
+        if not dom:
+            chk.correspondence_broken({"level": "pattern-model", "detail": "generated pattern outside the documented forms (pat_ok)", "pattern": r["pattern"]})
+        elif r["partial"]:
+            chk.violation(dict(info, reason="an ignore pattern removed only part of the linter's violations in the file"))
+        elif not model_ok:
+            chk.violation(dict(info, reason="the linter's ignore list is no longer matched the way its validated matcher model (Model/IgnorePat.v) says"))
+        elif not spec_ok:
+            chk.known_finding(f"linter_ignore_{kinds[r['pkg']]}[{r['pkg']}]", info)
+
+
 # ------------------------------------------------------------------ judging in Coq
 def coq_queries(case):
     if case.get("cross"):
@@ -735,7 +832,8 @@ def coq_judge_line(case, cands):
 
 _TH = None   # theories directory used for evaluation (None: the live development)
 MODEL_FILES = ["Lib/Base.v", "Lib/GenTypes.v", "Gen/IgnoreGen.v", "Model/PyStr.v", "Model/Ignore.v", "Model/IgnoreSpec.v", "Actual/IgnoreActual.v",
-               "Model/IgnoreRun.v"]
+               "Model/IgnoreRun.v", "Gen/CollectGen.v", "Model/CollectStr.v", "Model/Glob.v", "Model/Collect.v", "Model/CollectSpec.v", "Model/IgnorePat.v",
+               "Actual/IgnorePatActual.v"]
 
 
 def eval_shards_at(th, workdir: Path, header: str, shards):
@@ -989,6 +1087,8 @@ def run(tier: str, seed: int, replay: str | None = None) -> int:
     _tick("start")
     chk = Check(PROP, tier, seed)
     own = json.loads((VERIF / "known.d" / f"{PROP}.json").read_text()) if (VERIF / "known.d" / f"{PROP}.json").exists() else {"findings": []}
+    if own["findings"]:   # this check's own list is authoritative for C04 (the assembled known_findings.json may lag behind it)
+        chk.known = {"known": {}, "fixed": {}}
     for f in own["findings"]:   # known.d/C04.json is this check's own list; known_findings.json is assembled from it by tools/mkmanifest.py
         if f.get("status") == "known":
             chk.known["known"].setdefault(f["key"], f)
@@ -1014,7 +1114,7 @@ def run(tier: str, seed: int, replay: str | None = None) -> int:
         "repository- and linter-level ignore patterns (fnmatch) are an oracle: validated on a few patterns only, not modelled",
         "the analysers' own line numbering (ast / tree-sitter) is an oracle: observable level only",
     ]
-    chk.build(["theories/Props/C04.v"], ["IgnoreGen"], known_v=["theories/Props/C04Known.v"])
+    chk.build(["theories/Props/C04.v"], ["IgnoreGen"], known_v=["theories/Props/C04Known.v", "theories/Props/C04KnownPat.v"])
     _tick("coq build")
     scale = chk.budget_scale()
     quick = tier == "quick"
@@ -1046,6 +1146,11 @@ def run(tier: str, seed: int, replay: str | None = None) -> int:
         leafs = leaf_strings(seed, n_leaf)
         obs_in = obs_cases(seed, n_obs)
         pat_in = obs_in[:: max(1, len(obs_in) // (6 if quick else 40))]
+        if quick:   # one file per language
+            seen_l = {}
+            for pc in pat_in:
+                seen_l.setdefault(pc["lang"], pc)
+            pat_in = list(seen_l.values())
 
     # implementation runs
     with scratch_dir("tv-c04-disk-") as dd:
@@ -1063,6 +1168,20 @@ def run(tier: str, seed: int, replay: str | None = None) -> int:
             c["impl"] = impl_unit(c["content"], c["queries"], disk)
     for c in raws:
         c["impl"] = impl_unit(c["content"], c["queries"])
+    if not replay:   # dot-less rule ids: `id.*` must name the rule like `id` does (through the real parser; the Coq side is C04_dotless_wildcard_refuted)
+        for rid in ("cqs", "file-placement"):
+            for st_ in ("#", "//"):
+                plain = impl_unit(f"x = 1  {st_} thailint: ignore[{rid}]\n", [(1, rid)])[0]
+                wild = impl_unit(f"x = 1  {st_} thailint: ignore[{rid}.*]\n", [(1, rid)])[0]
+                other = impl_unit(f"x = 1  {st_} thailint: ignore[{rid}.*]\n", [(1, "nesting.excessive-depth")])[0]
+                chk.count(["dotless", rid, st_], True)
+                chk.dist("dotless")
+                chk.traces_validated += 3
+                info = {"level": "unit", "content": f"x = 1  {st_} thailint: ignore[{rid}.*]\n", "line": 1, "rule_id": rid}
+                if not plain or other:
+                    chk.violation(dict(info, reason="a same-line directive naming a dot-less rule id is not honoured / names another rule"))
+                elif not wild:
+                    chk.known_finding("dotless_wildcard", info)
     _tick("unit/raw implementation runs")
     obs = pool_map(run_obs, obs_in, procs=8) if obs_in else []
     _tick("observable implementation runs")
@@ -1082,6 +1201,15 @@ def run(tier: str, seed: int, replay: str | None = None) -> int:
     _tick("CLI subset")
     for pc in pat_in:
         decide_patterns(chk, run_patterns(pc))
+    pm_results = []
+    if pat_in and not replay:
+        # one file per language holding every snippet, so that every linter of the table is exercised
+        full = [{"i": "full:" + lang, "lang": lang, "seed": seed, "npat": 10 if quick else 40,
+                 "base": list(LANGS[lang][3]) + [x for n, b in enumerate(LANGS[lang][0]) for l in b + [""] for x in l.replace("{n}", str(n)).split("\n")]}
+                for lang in LANGS]
+        pm_results = pool_map(run_pattern_model, full, procs=4)
+        with scratch_dir("tv-c04-pmj-") as pwd:
+            judge_pattern_model(chk, pm_results, pwd)
     _tick("file-pattern level")
     for o in obs:
         if "skip" in o:
@@ -1108,6 +1236,11 @@ def run(tier: str, seed: int, replay: str | None = None) -> int:
             else:
                 evaluate(chk, structured, raws, [], p2_cap, th=th, record=False,
                          note=" [judged with the last validated generated layer, coq/Gen.expected/IgnoreGen.v.txt]")
+                if pm_results and not chk.violations:
+                    global _TH
+                    _TH = th
+                    judge_pattern_model(chk, pm_results, sd / "pm", record=False)
+                    _TH = None
         _tick("fallback search with the snapshot model")
     return chk.finish()
 
